@@ -296,7 +296,7 @@ fn write_msg_index_header(file: &mut File, header: MsgIndexHeader) -> io::Result
 }
 
 fn msg_index_slot_offset(slot: u64) -> u64 {
-    MSG_INDEX_HEADER_SIZE + slot.saturating_mul(MSG_INDEX_SLOT_SIZE)
+    MSG_INDEX_HEADER_SIZE.saturating_add(slot.saturating_mul(MSG_INDEX_SLOT_SIZE))
 }
 
 fn hash_uuid_v1(key: &[u8; 16]) -> u64 {
